@@ -25,10 +25,22 @@ func Desc[S ~[]V, V any, Sort constraints.Ordered](slice *S, getter func(index i
 
 // DescByClone 对切片进行降序排序，返回排序后的切片
 func DescByClone[S ~[]V, V any, Sort constraints.Ordered](slice S, getter func(index int) Sort) S {
-	result := CloneSlice(slice)
-	Desc(&result, getter)
+	if slice == nil {
+		return nil
+	}
+	// getter addresses positions of slice, which must not move while sorting: sort the positions
+	indices := make([]int, len(slice))
+	for i := range indices {
+		indices[i] = i
+	}
+	sort.Slice(indices, func(i, j int) bool {
+		return getter(indices[i]) > getter(indices[j])
+	})
+	result := make(S, len(slice))
+	for i, index := range indices {
+		result[i] = slice[index]
+	}
 	return result
-
 }
 
 // Asc 对切片进行升序排序
@@ -40,8 +52,21 @@ func Asc[S ~[]V, V any, Sort constraints.Ordered](slice *S, getter func(index in
 
 // AscByClone 对切片进行升序排序，返回排序后的切片
 func AscByClone[S ~[]V, V any, Sort constraints.Ordered](slice S, getter func(index int) Sort) S {
-	result := CloneSlice(slice)
-	Asc(&result, getter)
+	if slice == nil {
+		return nil
+	}
+	// getter addresses positions of slice, which must not move while sorting: sort the positions
+	indices := make([]int, len(slice))
+	for i := range indices {
+		indices[i] = i
+	}
+	sort.Slice(indices, func(i, j int) bool {
+		return getter(indices[i]) < getter(indices[j])
+	})
+	result := make(S, len(slice))
+	for i, index := range indices {
+		result[i] = slice[index]
+	}
 	return result
 }
 
